@@ -3,7 +3,7 @@ import json
 
 
 class Ty:
-    __slots__ = ("f", "id", "s", "k", "defn", "arg_ids")
+    __slots__ = ("f", "id", "s", "k", "defn", "arg_ids", "hidden_id")
 
     def __init__(self, f, i, d):
         self.f = f
@@ -12,6 +12,11 @@ class Ty:
         self.k = d["k"]
         self.defn = d.get("def")
         self.arg_ids = d.get("args", [])
+        self.hidden_id = d.get("hidden")
+
+    @property
+    def hidden(self):
+        return self.f.ty(self.hidden_id) if self.hidden_id is not None else None
 
     @property
     def args(self):
